@@ -199,6 +199,7 @@ fn opts_for(prop: &str, r: &mut Rng) -> GenOpts {
             o.p_raw_graph = 0.02;
         }
         "C06" => {
+            o.p_poison = 0.15;
             o.p_raw_graph = 0.5;
             o.hostile_reads = 0.3;
             o.p_post = 0.4;
